@@ -206,3 +206,14 @@ func SetResponseHeaders(w http.ResponseWriter, stats *ports.RequestStats, endpoi
 		}
 	}
 }
+
+// RelayableStatus returns a backend's status code in a form that can be relayed to the client.
+// A backend can put any three digits on its status line; net/http's ResponseWriter panics on
+// codes below 100 (and above 999), which would abort the request goroutine. Such a response is
+// not valid HTTP and is reported as a bad gateway.
+func RelayableStatus(code int) int {
+	if code < 100 || code > 999 {
+		return http.StatusBadGateway
+	}
+	return code
+}
